@@ -82,7 +82,7 @@ func check(prop string) int {
 		// requests from every state reached; thorough: depth 2 full, depth 3 reduced
 		p = &ee.Plan{Property: "C14", Sides: []string{"R", "C"}, FullDepth: 1, Depth: 2, Repeat: 8, RepeatDepth: 1, Budget: envDur("VERIF_EE_BUDGET", 170*time.Second), Alphabet: ee.Alphabet, Classes: classes}
 		if th {
-			p.FullDepth, p.Depth, p.RepeatDepth, p.ExpandAll, p.Budget = 2, 3, 2, true, envDur("VERIF_EE_BUDGET", 21*time.Minute)
+			p.FullDepth, p.Depth, p.RepeatDepth, p.ExpandAllDepth, p.Budget = 2, 3, 1, 1, envDur("VERIF_EE_BUDGET", 20*time.Minute)
 		}
 	case "C17rest", "C17":
 		p = &ee.Plan{Property: "C17", Sides: []string{"R"}, FullDepth: 1, Depth: 2, Repeat: 1, RepeatDepth: 0, ExpandAll: true, C17: true, Budget: envDur("VERIF_EE_BUDGET", 100*time.Second), Classes: classes,
